@@ -205,7 +205,7 @@ class P21Check(_CheckBase):
                 pass
         return {"property": self.prop, "schema": it["name"], "schema_def": it["sd"],
                 "model": {"header": pm.default_header(core.rng(seed, self.prop, tag, "hdr", j), it["name"], rich=False), "insts": insts or []},
-                "render": {"p_ws": r.choice([0, 0, 0.1, 0.3]), "p_cmt_between": r.choice([0, 0, 0.2]), "p_cmt_in": 0, "sections": "hif", "eol": r.choice(["\n"] * 7 + ["", " ", "\r\n"]),
+                "render": {"p_ws": r.choice([0, 0, 0.1, 0.3]), "p_cmt_between": r.choice([0, 0, 0.2]), "p_cmt_in": 0, "sections": "hif", "spell": r.choice([None] * 6 + [{"id_pad": 4}, {"id_pad": 9, "plus_int": True}, {"plus_int": True}]), "eol": r.choice(["\n"] * 7 + ["", " ", "\r\n"]),
                            "seed": core.derive(seed, self.prop, tag, "render", j)}}
 
     @staticmethod
@@ -216,7 +216,7 @@ class P21Check(_CheckBase):
             rn = dict(rn, seps=pm.gen_seps(core.rng(rn["seed"], "r"), lines, rn["p_ws"], rn["p_cmt_between"], rn["p_cmt_in"], rn["sections"]))
         ntok = {k: len(t) for k, t in lines}
         rn = dict(rn, seps={k: v for k, v in rn["seps"].items() if int(k.rsplit(":", 1)[1]) < ntok.get(k.rsplit(":", 1)[0], -1)})
-        return pm.render(lines, rn["seps"], rn.get("eol", "\n")), rn
+        return pm.render(lines, rn["seps"], rn.get("eol", "\n"), rn.get("spell")), rn
 
     def exe(self, plan):
         return exe_for(self.ss, plan)
@@ -240,6 +240,8 @@ class P21Check(_CheckBase):
                 c = _copy.deepcopy(plan)
                 c["model"]["insts"] = [x for n, x in enumerate(insts) if n not in drop]
                 yield finish(c)
+        if plan["render"].get("spell"):
+            yield finish(dict(plan, render=dict(plan["render"], spell=None)))
         if plan["render"].get("eol", "\n") != "\n":
             yield finish(dict(plan, render=dict(plan["render"], eol="\n")))
         if plan["render"].get("seps"):
